@@ -95,3 +95,22 @@ def fmt_value(r, name):
 
 def fmt_template(r):
     raise NotImplementedError
+
+
+def dur_text(d, neg=False):
+    """native twin of contracts/durtext_t4.dur_text"""
+    if d._weeks is not None:
+        return ("-" if neg else "") + "P%dW" % abs(d._weeks)
+    out, seen_t = "", False
+    for name, letter in (("years", "Y"), ("months", "M"), ("days", "D"),
+                         ("hours", "H"), ("minutes", "M"), ("seconds", "S")):
+        v = getattr(d, "_" + name)
+        if v == 0:
+            continue
+        if name in ("hours", "minutes", "seconds") and not seen_t:
+            out += "T"
+            seen_t = True
+        out += "%d%s" % (abs(int(v)), letter)
+    if not out:
+        return "P0Y"
+    return ("-" if neg else "") + "P" + out
